@@ -12,7 +12,7 @@ for l in open('/verif/notes/seeded_results.jsonl'):
         r = json.loads(l)
     except Exception:
         continue
-    if 'seed' not in r or r.get('tier', 'quick') != 'quick':
+    if 'seed' not in r or r.get('tier', 'quick') != 'quick' or not isinstance(r.get('check'), str):
         continue
     hist.setdefault(r['seed'], {}).setdefault(r['check'], []).append((r['result'], r.get('detail', '')))
 for n in names:
